@@ -52,11 +52,16 @@ OLDW, NO_OVF, STAYS, UNMARKED = VW.OLDW, VW.NO_OVF, VW.STAYS, VW.UNMARKED
 
 
 def multi_contract(op, total):
-    """async_write2/3: several sync writes in a row - whatever happens the log grows by exactly what the cursor moved over"""
-    return ['''%s ==> ({ let n = final(self).buffers.bytes_consumed - old(self).buffers.bytes_consumed;
+    """async_write2/3: one space check for the total, then several sync writes in a row"""
+    return [# whatever happens the log grows by exactly what the cursor moved over
+            '''%s ==> ({ let n = final(self).buffers.bytes_consumed - old(self).buffers.bytes_consumed;
                         0 <= n <= %s.len() && cells(final(self).buffers.buffers@) =~= %s.skip(n)
-                        && final(dm).marked =~= old(dm).marked + %s.subrange(0, n) && (r is Ok ==> n == r->Ok_0 && n == %s) }) // [C17.%s.written_marked_exactly]'''
-            % (NO_OVF, OLDW, OLDW, OLDW, total, op)]
+                        && final(dm).marked =~= old(dm).marked + %s.subrange(0, n) && (r is Ok ==> n == r->Ok_0) }) // [C17.%s.written_marked_exactly]'''
+            % (NO_OVF, OLDW, OLDW, OLDW, op),
+            # "the bytes placed by writers are exactly the concatenation written": all of it or an error
+            'r is Ok && %s ==> r->Ok_0 == %s // [C04.%s.amount]' % (NO_OVF, total, op),
+            # "an operation that would exceed the remaining space fails without writing": the check covers the TOTAL, so nothing has moved
+            '%s && %s > %s.len() ==> r is Err && %s && %s // [C04.%s.exceeds_fails]' % (NO_OVF, total, OLDW, STAYS, UNMARKED, op)]
 
 
 STEPS = '''let ghost all = cells(self.buffers.buffers@);
